@@ -7,8 +7,8 @@ What is regenerated on every run (from the AST of pydra/utils/hash.py and pydra/
     `struct.pack` formats, and blake2b's `digest_size` / `person`.  The Lean model (`Hash/Model.lean`) *uses these
     definitions*, so a changed prefix changes the model, and the `decide`-closed lemma that the tag heads are pairwise
     distinct and colon-terminated (`Hash/LemmasEnc.lean: heads_ok`) is re-checked against the source;
-  * the normalised source (`ast.unparse`, docstrings removed) of every modelled function, compared by `decide` with the
-    text the hand-written model was written for (`Hash/Model.lean: expectedSources`), so that any change of the
+  * a digest of the normalised source (`ast.unparse`, docstrings removed) of every modelled function, compared by `decide`
+    with the digests the hand-written model was written for (`Hash/Sources.lean`), so that any change of the
     algorithm (e.g. `sorted(obj)` dropped from `bytes_repr_set`, a field skipped in `_compute_hashes`) re-opens
     the proof obligation `HashLits_sources_ok` even when no literal changed.
 An extractor that does not find the shape it expects raises (-> "tie broken").
@@ -17,6 +17,7 @@ An extractor that does not find the shape it expects raises (-> "tie broken").
 from __future__ import annotations
 
 import ast
+import hashlib
 
 from harness import core
 
@@ -308,9 +309,9 @@ def render(d: dict) -> str:
     o.append("/-- decorators / statements that register the modelled serializers -/")
     o.append("def registrations : List String := [\n  " + ",\n  ".join(lean_str(x) for x in d["registrations"]) + "\n]")
     o.append("")
-    o.append("/-- normalised source (ast.unparse without docstrings) of every modelled function -/")
+    o.append("/-- sha256[:24] of the normalised source (ast.unparse without docstrings) of every modelled function -/")
     o.append("def sources : List (String × String) := [")
-    o.append(",\n".join(f"  ({lean_str(n)},\n   {lean_str(s)})" for n, s in d["sources"]))
+    o.append(",\n".join(f"  ({lean_str(n)}, {lean_str(hashlib.sha256(s.encode()).hexdigest()[:24])})" for n, s in d["sources"]))
     o.append("]")
     o.append("")
     o.append("end PydraModel.Gen.HashLits")
